@@ -103,10 +103,12 @@ func Open(options Options) (*DB, error) {
 
 	// 尝试加载 merge 临时目录中的数据文件
 	// 当 nonMergeFileId == 0 时可表示 merge 失败, 否则成功
+	verifPoint("open.locked", 0)
 	nonMergeFileId, err := db.loadMergeFiles()
 	if err != nil {
 		return nil, err
 	}
+	verifPoint("open.adopted", nonMergeFileId)
 
 	// 加载数据目录中的数据文件
 	files, err := db.loadDataFiles()
@@ -205,6 +207,7 @@ func (db *DB) Put(key []byte, value []byte) error {
 		return err
 	}
 
+	verifPoint("put.appended", 0)
 	// 更新索引, 并维护无效数据量
 	if oldPos := db.index.Put(key, pos); oldPos != nil {
 		atomic.AddInt64(&db.reclaimSize, int64(oldPos.Size))
@@ -241,6 +244,7 @@ func (db *DB) Delete(key []byte) error {
 	if pos := db.index.Get(key); pos == nil {
 		return nil
 	}
+	verifPoint("delete.checked", 0)
 
 	// 构造 LogRecord 设置删除状态, 作为墓碑值追加到数据文件中
 	logRecord := db.recordPool.Get().(*datafile.LogRecord)
@@ -253,6 +257,7 @@ func (db *DB) Delete(key []byte) error {
 	if err != nil {
 		return err
 	}
+	verifPoint("delete.appended", 0)
 	// 墓碑值本身可视为无效数据
 	atomic.AddInt64(&db.reclaimSize, int64(pos.Size))
 
@@ -271,6 +276,7 @@ func (db *DB) Delete(key []byte) error {
 func (db *DB) ListKeys() [][]byte {
 	iterator := db.index.Iterator(false)
 	defer iterator.Close()
+	verifPoint("listkeys.snapshot", 0)
 	keys := make([][]byte, db.index.Size())
 	var idx int
 	// 直接通过迭代器遍历获取所有 key
